@@ -62,30 +62,76 @@ def r1_selected_set(ctx):
         ctx.check(ok, 'R1', at, po.qualname, 'selected-set-origin',
                   'token_categories = valid(include=<include option>, exclude=<exclude option>)',
                   f'token_categories is `{src(call)[:120]}`: not valid(include=include, exclude=exclude) with unswapped origins')
-    loops = [n for n in walk_local(po.node) if isinstance(n, ast.For) and src(n.iter) == f'{kw}.items()']
-    ctx.expect_count('R1', 'keyword loop', len(loops), 1)
-    for lp in loops:
-        at = f'{po.module.relpath}:{lp.lineno}'
-        kv, vv = (e.id for e in lp.target.elts)
+    # every other keyword: copied to the option of the same name iff it is not in the skip list and its value is not None
+    sets = [n for n in walk_local(po.node) if isinstance(n, ast.Call) and F.is_name(n.func, 'setattr')]
+    ctx.expect_count('R1', 'setattr(options, key, value) site', len(sets), 1)
+    for sc in sets:
+        at = f'{po.module.relpath}:{sc.lineno}'
+        if not (len(sc.args) == 3 and F.is_name(sc.args[0], 'options') and isinstance(sc.args[1], ast.Name) and isinstance(sc.args[2], ast.Name)):
+            ctx.violation('R1', at, po.qualname, 'option-copy-shape', f'`{src(sc)[:80]}` does not copy a keyword to the option of the same name')
+            continue
+        kv, vv = sc.args[1].id, sc.args[2].id
+        loop = None
+        for n in walk_local(po.node):
+            if isinstance(n, ast.For) and sc in list(ast.walk(n)) and isinstance(n.target, ast.Tuple) and len(n.target.elts) == 2 \
+                    and [getattr(e, 'id', None) for e in n.target.elts] == [kv, vv]:
+                loop = n
+        if loop is None:
+            ctx.violation('R1', at, po.qualname, 'option-copy-loop', 'the keyword copy is not inside a loop over (key, value) pairs')
+            continue
+        conds = []
+        it = loop.iter
+        env = G.single_assignments(po.node)
+        if isinstance(it, ast.Call) and isinstance(it.func, ast.Attribute) and it.func.attr == 'items':
+            base = G.substitute(it.func.value, env)
+            if isinstance(base, ast.DictComp) and len(base.generators) == 1 and isinstance(base.generators[0].target, ast.Tuple) \
+                    and src(base.generators[0].iter) == f'{kw}.items()':
+                k2, v2 = (e.id for e in base.generators[0].target.elts)
+                if not (F.is_name(base.key, k2) and F.is_name(base.value, v2)):
+                    ctx.violation('R1', at, po.qualname, 'option-copy-transforms', 'keys or values are transformed before they are copied')
+                    continue
+                ren = {k2: ast.Name(id=kv, ctx=ast.Load()), v2: ast.Name(id=vv, ctx=ast.Load())}
+                conds += [G.substitute(c, ren, recursive=False) for c in base.generators[0].ifs]
+            elif src(base) != kw:
+                ctx.violation('R1', at, po.qualname, 'option-copy-source', f'the copied pairs come from `{src(base)[:60]}`, not from the keyword arguments')
+                continue
+        else:
+            ctx.violation('R1', at, po.qualname, 'option-copy-source', f'the copied pairs come from `{src(it)[:60]}`')
+            continue
+        # path condition inside the loop body
+        reach = []
+        for sp in symex.sym_paths(loop.body):
+            if any(e.kind == 'expr' and e.node is not None and isinstance(e.node, ast.Expr) and e.node.value is sc for e in sp.events):
+                vals = [n_ if t else ast.UnaryOp(op=ast.Not(), operand=n_) for n_, t in sp.path.conds()]
+                # only the conditions evaluated before the setattr matter: all of them on this path precede it or follow it; keep all
+                reach.append(G.conj([G._formula(v) for v in vals]) if vals else ('const', True))
+        fm = G.conj([G._formula(c) for c in conds] + [G.disj(reach)])
+        naming = {}
         skip = None
-        for n in lp.body:
-            if isinstance(n, ast.If) and isinstance(n.test, ast.Compare) and isinstance(n.test.ops[0], ast.In) \
-                    and F.is_name(n.test.left, kv) and any(isinstance(x, ast.Continue) for x in n.body):
-                ok_, v = ctx.ce.try_eval(n.test.comparators[0], po.module)
-                if ok_:
-                    skip = set(v)
-        ctx.check(skip is not None and {'include', 'exclude', 'token_categories'} <= skip, 'R1', at, po.qualname, 'skip-list',
-                  'the keyword loop skips include, exclude and token_categories (the computed set cannot be overwritten)',
-                  f'the keyword loop skips {sorted(skip) if skip else None}: a `token_categories`/`include` keyword would overwrite '
-                  f'or pollute the computed selection')
-        sets = [n for n in ast.walk(lp) if isinstance(n, ast.Call) and F.is_name(n.func, 'setattr')]
-        oks = len(sets) == 1 and [src(a) for a in sets[0].args] == ['options', kv, vv]
-        guarded = False
-        for n in ast.walk(lp):
-            if isinstance(n, ast.If) and src(n.test) == f'{vv} is not None' and sets and sets[0] in list(ast.walk(n)):
-                guarded = True
-        ctx.check(oks and guarded, 'R1', at, po.qualname, 'none-skipped',
-                  'every other keyword is copied to the option of the same name, None meaning "not given"')
+        for a in G.atoms_of(fm):
+            if a == f'{vv} is None':
+                naming[a] = 'none'
+            elif a.startswith(f'{kv} in '):
+                try:
+                    node = ast.parse(a[len(f'{kv} in '):], mode='eval').body
+                    ok_, v = ctx.ce.try_eval(G.substitute(node, env), po.module)
+                    if ok_ and {'include', 'exclude', 'token_categories'} <= set(v):
+                        naming[a] = 'skip'
+                        skip = set(v)
+                except SyntaxError:
+                    pass
+        eq, cex, unknown = G.compare(fm, lambda v: (not v.get('skip', False)) and (not v.get('none', False)), naming)
+        ok = eq and not unknown and 'skip' in naming.values() and 'none' in naming.values()
+        why = f'a keyword is copied under `{G.show(fm)[:160]}`'
+        if unknown:
+            why += (f': the condition `{unknown[0]}` is not `value is not None` - an option passed explicitly with a falsy value '
+                    f'(spine_ids=[], spine_types=[], from_measure=0, show_measure_numbers=False) is silently ignored, so an empty '
+                    f'selection exports everything')
+        if 'skip' not in naming.values():
+            why += '; include / exclude / token_categories are not skipped (the computed selection can be overwritten)'
+        ctx.check(ok, 'R1', at, po.qualname, 'option-copy-condition',
+                  'a keyword is copied to the option of the same name iff it is not include/exclude/token_categories and its value is not None',
+                  why)
     rets = symex.returns(po)
     # starts from defaults
     okd = any(isinstance(n, ast.Assign) and F.is_name(n.targets[0], 'options') and src(n.value) == 'ExportOptions.default()'
